@@ -103,7 +103,7 @@ def check(F, rep, tier):
             iter_types = any(x in full for x in ("std::collections::hash_map::", "std::collections::hash_set::", "std::collections::hash::map::", "std::collections::hash::set::"))
             if (is_std_hash and m in HASH_ITER) or into_iter_on_hash or iter_types:
                 rep.bad("R14.3", "hash-iteration:%s:%s" % (fk, m), "iteration over a std HashMap/HashSet (order depends on a per-process random seed): %s" % full, site)
-    rep.floor("R14.3", "DefaultHasher call sites", n_hash, 6)
+    rep.floor("R14.3", "DefaultHasher call sites", n_hash, 3)
     rep.ok("R14.3", "no iteration over std HashMap/HashSet in %d local functions" % len(F.fns), nontrivial_key="noiter")
     # ---- R14.4 environment ---------------------------------------------------------------------
     pipe_reach = cg.closure([p for p in PIPELINES if p in F.fns])
